@@ -2071,6 +2071,8 @@ func runCase(raw json.RawMessage) interface{} {
 			o = runBridgeStall(c)
 		case "bridge_startrace":
 			o = runBridgeStartRace(c)
+		case "stream_poll":
+			o = runStreamPoll(c)
 		case "mapping_window":
 			o = runMappingWindow(c)
 		case "copy_ctx_exit":
